@@ -149,7 +149,42 @@ func (c *Ctx) ruleFlagTable() {
 			return "field(call((*flag.FlagSet).Lookup; " + P.Desc(parse.Params[0]) + ", const(\"" + flagName + "\")).flag.Flag.Value)"
 		}
 		d0 := P.Desc(a[0])
-		ok0 := strings.Contains(d0, "call(invoke flag.Getter.Get; typeassert("+valueOf("scan-tests")+"; flag.Getter))")
+		// every value it can take: the flag's Get() (asserted to bool), or false when the flag is not registered -
+		// also when the read lives in an accessor helper
+		sawGet := false
+		var boolRoots func(v ssa.Value, depth int) bool
+		boolRoots = func(v ssa.Value, depth int) bool {
+			return P.RootsAllDeep(v, func(x ssa.Value) bool {
+				if cv, isC := constBool(x); isC {
+					return !cv
+				}
+				if strings.Contains(P.Desc(x), "call(invoke flag.Getter.Get; typeassert("+valueOf("scan-tests")+"; flag.Getter))") {
+					sawGet = true
+					return true
+				}
+				// an accessor helper (bool results are not inlined by the descriptor engine): its returns, in the
+				// context of this call
+				if call, ok := x.(*ssa.Call); ok && depth < 3 {
+					callee := call.Call.StaticCallee()
+					if callee != nil && P.IsProductFunc(callee) && len(callee.Blocks) > 0 && !P.isAnchor(callee) {
+						all, n := true, 0
+						allInstrs(callee, func(_ *ssa.BasicBlock, ins ssa.Instruction) {
+							if r, ok := ins.(*ssa.Return); ok && len(r.Results) == 1 {
+								n++
+								P.PinnedAll(pinMap{callee: call}, func() {
+									if !boolRoots(r.Results[0], depth+1) {
+										all = false
+									}
+								})
+							}
+						})
+						return all && n > 0
+					}
+				}
+				return false
+			})
+		}
+		ok0 := boolRoots(a[0], 0) && sawGet
 		c.check(ok0, "FLAG-VALUE", "scan-tests", where, "ScanTests = value of flag scan-tests", "ScanTests is not read from the scan-tests flag: "+short(d0))
 		for i, fl := range []string{"exclude-paths", "exclude-checks"} {
 			okL := P.RootsAll(a[i+1], func(x ssa.Value) bool {
